@@ -396,6 +396,7 @@ func genOp(t *rapid.T, c *Cfg, p *genProfile, kinds []string, inGrp []bool) Op {
 		op.End = rapid.SampledFrom([]int{-1, -1, 2, 3, 4, 5, 1, 6, 8, 10, 0}).Draw(t, "end")
 		op.Merge = rapid.Bool().Draw(t, "merge")
 		op.ViaAPI = rapid.IntRange(0, 3).Draw(t, "api") == 0
+		op.NoFlush = p.park && rapid.IntRange(0, 1).Draw(t, "noflush") == 0
 		// a restart right after the pass, with rebuilt indexes, is where a misplaced record shows
 		op.Mask = rapid.SampledFrom([]string{"", "", "all", "hash", "", "hints", "all"}).Draw(t, "thenreopen")
 	}
